@@ -121,6 +121,8 @@ def analyse(records, base, chain, status0, event_of_step, values_of=None, max_re
     involve the step's uniform draws (weight orderings inside the candidate sets, horizon tests on
     earlier times) split the parameter space into regions; the mass of a branch is recorded per
     region and the law identity is proved with the regions as guards."""
+    import inspect
+    nargs = len(inspect.signature(event_of_step).parameters)
     prover = Prover(base)
     domain = {}
 
@@ -145,7 +147,9 @@ def analyse(records, base, chain, status0, event_of_step, values_of=None, max_re
                          'confirmed': {'reproduced': True, 'how': 'law obligation: expressions extracted from the real code\'s own draws/comparisons; counterexample = parameter values where they differ from the reference chain',
                                        'model': vals}})
 
-    for (log, complete) in records:
+    for rec in records:
+        log, complete = rec[0], rec[1]
+        out = rec[2] if len(rec) > 2 else None
         prelude, steps = split_steps(log)
         status = dict(status0)
         prefix = ()
@@ -154,11 +158,15 @@ def analyse(records, base, chain, status0, event_of_step, values_of=None, max_re
         # supports of the draws: global hypotheses of every obligation (the stubs constrain their symbols this way)
         for ent in log:
             if ent[0] == 'expo':
+                if symx._isinf(ent[2]):
+                    continue
                 _dom(lift(ent[2]) > 0 if not ties else lift(ent[2]) >= 0)
             elif ent[0] == 'random':
                 _dom(z3.And(lift(ent[1]) >= 0, lift(ent[1]) < 1))
         for si, st in enumerate(steps):
             has_event = any(d[0] in ('choice', 'wchoice') for d in st['draws'])
+            if symx._isinf(st['e']):
+                has_event = False
             step_complete = (si < nsteps - 1) or complete
             node = tree.setdefault(prefix, {'status': dict(status), 'rates': [], 'branches': OrderedDict()})
             node['rates'].append((st['rate'], list(region)))
@@ -180,7 +188,7 @@ def analyse(records, base, chain, status0, event_of_step, values_of=None, max_re
                     break
                 br['variants'][rkey] = (phi, mass, st['draws'])
                 if br['ev'] is None:
-                    br['ev'] = event_of_step(chosen, status, st['draws'])
+                    br['ev'] = event_of_step(chosen, status, st['draws'], si, out) if nargs >= 5 else event_of_step(chosen, status, st['draws'])
             ev = br['ev']
             if ev is None:
                 break
